@@ -339,7 +339,10 @@ class Ref:
         elif vt == 'BINARY':
             for p in self.exprs():
                 p.substitute(v, F(-1), F(1))
+            self.flip_outcomes = []
             for c in self.cons.values():
+                if c.marked and v in c.p.lin:
+                    self.flip_outcomes.append('mark cleared (one-hot after the substitution)' if self.discrete(c) else 'mark kept (not one-hot after the substitution)')
                 if self.discrete(c) and v in c.p.lin:
                     c.marked = False
         else:
@@ -1497,6 +1500,9 @@ def one_history(ctx, r, nops, out):
                 ctx.tick(f'variable removed from the model while an expression has private order: {oc}')
             if any(adjacent_descending(ref_before, p, below=v) for p in ref_before.exprs() for v in gone):
                 ctx.tick('variable removed BELOW an expression listing model variable k+1 before k')
+        if k == 'flip' and outcome == 'ok':
+            for oc in getattr(ref, 'flip_outcomes', []):
+                ctx.tick('flip of a BINARY variable of a marked constraint: ' + oc)
         if not check_accessors(ctx, r, cqm, ref, hist, site):
             return
         if try_new and outcome == 'ok' and sout == 'ok':
